@@ -16,6 +16,9 @@ makes the derived fetch again as soon as that fetch has returned) and is not re-
 | `SSt.resolve`         | the harness completes the fetch in flight: its value is published, unless the resource is marked to fetch again: then nobody gets to see the value (the derived starts the next fetch in the same poll, every `Suspend` that re-awaits finds it loading) |
 | `SV.sus`              | leptos `Suspense` (leptos/src/suspense_component.rs): `SuspenseBoundary<false>` = `RenderEffect` over `none_pending` switching an `EitherKeepAlive { children, fallback }` (tachys/src/view/either.rs); pending = some `Suspend` built below it (and not below a boundary of its own) awaits a resource that is loading (`SuspenseContext::task_id`) |
 | `SV.tra`              | leptos `Transition` = `SuspenseBoundary<true>`: `show_b = !none_pending && nth_run < 2`: the fallback is shown during the FIRST pending episode only (`phase`: 0 = none yet, 1 = in it, 2 = over); afterwards the children stay, every `Suspend` showing what it last resolved to |
+| `SSt.settle`          | the boundaries' render effects have seen the current state (only a `<Transition>` keeps something from it: `phase`) |
+| `SOp`, `SSt.step`, `SProg.run` | a history: writes and completions, the executor running to idle after each |
+| `renderLoaded`        | the view with every boundary transparent and every leaf at the value its fetcher gives for the current signals |
 | `SV.aw rid`           | `move || Suspend::new(async move { resource.await.to_string() })` (tachys/src/reactive_graph/suspense.rs) |
 
 The class (checked by the harness and the driver): resources read signals only; `aw` leaves sit below a
@@ -54,7 +57,7 @@ structure Res where
 structure SSt where
   defs : Prog := []
   /-- current values of the signals (by node id; memos are computed from scratch) -/
-  sigs : List (Nat × Int) := []
+  sigs : Nat → Int := fun _ => 0
   res : List Res := []
   /-- per `<Transition>` (numbered in document order): 0 = no pending episode yet, 1 = in the first one, 2 = it is over -/
   phase : List Nat := []
@@ -62,10 +65,8 @@ structure SSt where
   disposed : Bool := false
   deriving Inhabited
 
-def SSt.sigEnv (st : SSt) : Nat → Int := fun i => ((st.sigs.find? (·.1 == i)).map (·.2)).getD 0
-
 /-- from-scratch values of all nodes -/
-def SSt.env (st : SSt) : Nat → Int := fun i => Reactive.scratch st.defs st.sigEnv (Reactive.fuelFor st.defs) i
+def SSt.env (st : SSt) : Nat → Int := fun i => Reactive.scratch st.defs st.sigs (Reactive.fuelFor st.defs) i
 
 /-- the signals an evaluation of the expression reads (the branch of an `ite` that is taken) -/
 def readsDyn (ρ : Nat → Int) : Expr → List Nat
@@ -86,8 +87,7 @@ def Res.start (r : Res) (ρ : Nat → Int) : Res :=
 def SSt.addRes (st : SSt) (body : Expr) : SSt :=
   { st with res := st.res ++ [({ body := body } : Res).start st.env] }
 
-def setAt (l : List (Nat × Int)) (id : Nat) (v : Int) : List (Nat × Int) :=
-  (l.filter (·.1 != id)) ++ [(id, v)]
+def setAt (f : Nat → Int) (id : Nat) (v : Int) : Nat → Int := fun i => if i = id then v else f i
 
 /-- `RwSignal::set` (and the executor runs to idle) -/
 def SSt.set (st : SSt) (id : Nat) (v : Int) : SSt :=
@@ -153,18 +153,19 @@ def transitions : SV → List (Nat × SV)
   | .tra i kid => (i, kid) :: transitions kid
   | _ => []
 
-/-- the boundary's effect has seen the current state: a `<Transition>` enters its first pending episode, or leaves it -/
+/-- the boundary's effect has seen whether something below it is pending: a `<Transition>` enters its first pending
+episode, or leaves it -/
+def nextPhase (ph : Nat) (p : Bool) : Nat :=
+  if ph == 0 && p then 1 else if ph == 1 && !p then 2 else ph
+
+def phaseAt (st : SSt) (v : SV) (i : Nat) : Nat :=
+  match (transitions v).find? (·.1 == i) with
+  | some (_, kid) => nextPhase (st.phase.getD i 0) (pendingIn st kid 0)
+  | none => st.phase.getD i 0
+
 def SSt.settle (st : SSt) : SSt :=
   match st.view with
-  | some v =>
-    let ts := transitions v
-    { st with phase := (List.range st.phase.length).map fun i =>
-        let ph := st.phase.getD i 0
-        match ts.find? (·.1 == i) with
-        | some (_, kid) =>
-          let p := pendingIn st kid 0
-          if ph == 0 && p then 1 else if ph == 1 && !p then 2 else ph
-        | none => ph }
+  | some v => { st with phase := (List.range st.phase.length).map (phaseAt st v) }
   | none => st
 
 def countTra : SV → Nat
@@ -185,5 +186,68 @@ def SSt.dom (st : SSt) : List Tok :=
   match st.view with
   | some v => renderS st v 0
   | none => []
+
+
+
+/-! ## operations -/
+
+inductive SOp where
+  | set (id : Nat) (v : Int)
+  | resolve (rid : Nat)
+  deriving Repr, Inhabited
+
+/-- an operation, then the executor runs to idle -/
+def SSt.step (st : SSt) : SOp → SSt
+  | .set id v => (st.set id v).settle
+  | .resolve rid => (st.resolve rid).settle
+
+/-- signals and memos, the resources' fetchers, the resources completed before the mount, the view -/
+structure SProg where
+  defs : Prog
+  bodies : List Expr
+  pre : List Nat
+  view : SV
+  deriving Inhabited
+
+def initS (defs : Prog) : SSt :=
+  { defs := defs, sigs := fun i => match defs[i]? with | some (.sig v) => v | _ => 0 }
+
+def SProg.start (p : SProg) : SSt :=
+  (p.pre.foldl SSt.resolve (p.bodies.foldl SSt.addRes (initS p.defs))).mount p.view
+
+def SProg.run (p : SProg) (ops : List SOp) : SSt := ops.foldl SSt.step p.start
+
+def sigsOnly (defs : Prog) : Expr → Bool
+  | .lit _ => true
+  | .rd _ i => match defs[i]? with | some (.sig _) => true | _ => false
+  | .add a b => sigsOnly defs a && sigsOnly defs b
+  | .mulc _ a => sigsOnly defs a
+  | .ite c t e => sigsOnly defs c && sigsOnly defs t && sigsOnly defs e
+  | .seq _ _ => false
+  | .wr _ _ => false
+
+/-- what the view shows when everything has loaded: boundaries are transparent, a leaf shows the value of its
+resource's fetcher for the current signals -/
+def renderLoaded (st : SSt) : SV → Int → List Tok
+  | .text s, _ => [.text (.lit s)]
+  | .unit, _ => [.comment]
+  | .elem tag attrs kid, key =>
+    [.open tag (attrs.map (renderAttrL st.env [] key))] ++ renderLoaded st kid key ++ [.close]
+  | .seq a b, key => renderLoaded st a key ++ renderLoaded st b key
+  | .dynText x, key => [.text (.int (Reactive.evalPure st.env (x.valued [] key)))]
+  | .either c a b, key =>
+    if Reactive.evalPure st.env (c.valued [] key) != 0 then renderLoaded st a 0 else renderLoaded st b 0
+  | .show c a b, key =>
+    if Reactive.evalPure st.env (c.valued [] key) != 0 then renderLoaded st a 0 else renderLoaded st b 0
+  | .forKeyed sel lists, key =>
+    (listAt lists (Reactive.evalPure st.env (sel.valued [] key))).flatMap RView.rowTree ++ [.comment]
+  | .forRows sel lists row, key =>
+    (listAt lists (Reactive.evalPure st.env (sel.valued [] key))).flatMap
+      (fun (k : Nat) => [.open "li" [], .text (.lit (toString k))] ++ renderLoaded st row (k : Int) ++ [.close])
+      ++ [.comment]
+  | .sus kid, key => renderLoaded st kid key
+  | .tra _ kid, key => renderLoaded st kid key
+  | .aw rid, _ => [.text (.int (((st.res[rid]?).map fun r => Reactive.evalPure st.env r.body).getD 0))]
+
 
 end Leptos.SView
